@@ -8,6 +8,7 @@ natively.  A callee with a registered contract is replaced by the contract
 """
 import ast
 import builtins
+import re
 import types
 
 import z3
@@ -124,6 +125,7 @@ class Interp:
         self.tracked = tuple(tracked_prefixes)
         self.fn_contracts = {}      # python function object (id) -> handler(interp, args, kwargs)
         self.name_contracts = {}    # (module, qualname) -> handler
+        self.method_name_contracts = {}  # (class, attribute name) -> handler, for decorated methods
         self.loop_specs = {}        # (module, qualname, ordinal) -> LoopSpec
         self.yield_handler = None   # callable(value) for generators under contract; default: eager collection
         self.inlined = set()        # qualnames interpreted (for evidence)
@@ -780,6 +782,10 @@ class Interp:
             info = self.func_info(fn)
             if info is not None:
                 return self.call_function(fn, info, args, kwargs)
+            if fn is re.match and contains_sym(list(args)):
+                from . import rx
+                pat = re.compile(args[0], *args[2:])
+                return rx.pattern_method(self, pat, "match", [args[1]], {})
             return self.call_native(fn, args, kwargs)
         if isinstance(fn, IFunction):
             return self.call_ifunction(fn, args, kwargs)
@@ -788,6 +794,13 @@ class Interp:
         if isinstance(fn, type):
             return self.instantiate(fn, args, kwargs)
         if isinstance(fn, types.BuiltinFunctionType) or isinstance(fn, types.BuiltinMethodType):
+            owner = getattr(fn, "__self__", None)
+            if isinstance(owner, re.Pattern):
+                h = self.fn_contracts.get(("re.Pattern", fn.__name__))
+                if h is not None:
+                    return h(self, [owner] + list(args), kwargs)
+                from . import rx
+                return rx.pattern_method(self, owner, fn.__name__, list(args), kwargs)
             b = BUILTIN_MODELS.get(fn)
             if b is not None:
                 return b(self, args, kwargs)
@@ -1181,6 +1194,12 @@ class Interp:
         if hasattr(it, "__pyvc_forloop__"):
             spec, ordinal = self.loop_spec_for(s, frame)
             return it.__pyvc_forloop__(self, s, frame, spec, ordinal)
+        if isinstance(it, sym.SSeq):
+            spec, ordinal = self.loop_spec_for(s, frame)
+            if spec is None:
+                raise Unsupported("for-loop over a list of symbolic length without an invariant: %s:%d"
+                                  % (frame.qualname, s.lineno))
+            return self.for_with_invariant(s, frame, spec, ordinal, it)
         items = self.iterate(it)
         live = it if isinstance(it, list) else None
         i = 0
@@ -1236,6 +1255,43 @@ class Interp:
             if variant0 is not None:
                 v1 = self.call(spec.decreases, [L], {})
                 prove(z3.And(to_z3int(v1) < to_z3int(variant0), to_z3int(variant0) >= 0), label + ".variant")
+            raise PathEnd()
+        self.exec_block(s.orelse, frame)
+
+    def for_with_invariant(self, s, frame, spec, ordinal, seq):
+        """for x in <list of symbolic length>: cut by an invariant over (locals, index $i)."""
+        info = frame.info
+        label = spec.label or "%s.loop%d" % (info.qualname, ordinal)
+        if spec.header is not None and ast.unparse(s.iter) != spec.header:
+            raise Unsupported("stale loop invariant for %s loop %d" % (info.qualname, ordinal))
+        n = z3.Length(seq.t)
+        frame.locals["$i"] = 0
+        frame.locals["$seq"] = seq
+        L = NS(frame.locals)
+        ok = self.call(spec.invariant, [L], {})
+        if not prove(self._as_cond(ok), label + ".inv-entry"):
+            raise PathEnd()
+        names = assigned_names(s.body) | assigned_names([s.target])
+        for name in sorted(names):
+            frame.locals[name] = self.fresh_of_kind(spec.havoc.get(name), name)
+        if spec.heap is not None:
+            self.call(spec.heap, [L], {})
+        i = sym.fresh_int("loop_i", register=False)
+        assume(z3.And(i.t >= 0, i.t <= n))
+        frame.locals["$i"] = i
+        inv = self.call(spec.invariant, [L], {})
+        assume(self._as_cond(inv))
+        if branch(i.t < n):
+            self.assign(s.target, seq.elem(i.t), frame)
+            try:
+                self.exec_block(s.body, frame)
+            except _Break:
+                return
+            except _Continue:
+                pass
+            frame.locals["$i"] = mkint(i.t + 1)
+            ok = self.call(spec.invariant, [L], {})
+            prove(self._as_cond(ok), label + ".inv-preserved")
             raise PathEnd()
         self.exec_block(s.orelse, frame)
 
@@ -1411,7 +1467,7 @@ class Interp:
                     raise Unsupported("f-string conversion")
         return self.concat_all(parts, False)
 
-    def _comp(self, n, frame, emit):
+    def _comp(self, n, frame, emit, first=_NOKEY):
         sub = Frame(frame.globals, frame.cls, frame.qualname, frame.module, outer=frame, info=None)
 
         def rec(i):
@@ -1419,16 +1475,40 @@ class Interp:
                 emit(sub)
                 return
             g = n.generators[i]
-            for x in self.iterate(self.ev(g.iter, sub if i else frame)):
+            src = first if (i == 0 and first is not _NOKEY) else self.ev(g.iter, sub if i else frame)
+            for x in self.iterate(src):
                 self.assign(g.target, x, sub)
                 if all(self.truth(self.ev(c, sub)) for c in g.ifs):
                     rec(i + 1)
 
         rec(0)
 
+    def _abstract_map(self, n, frame, it):
+        """[x.decode("utf-8") for x in <abstract list>]  ->  abstract map (the only comprehension shape over a
+        list of symbolic length that the executor models; anything else is Unsupported)"""
+        if len(n.generators) != 1:
+            return None
+        g = n.generators[0]
+        e = n.elt
+        ok = (not g.ifs and isinstance(g.target, ast.Name) and isinstance(e, ast.Call) and isinstance(e.func, ast.Attribute)
+              and e.func.attr == "decode" and isinstance(e.func.value, ast.Name) and e.func.value.id == g.target.id
+              and not e.keywords and len(e.args) <= 1)
+        if ok and e.args:
+            enc = self.ev(e.args[0], frame)
+            ok = isinstance(enc, str) and enc.lower().replace("_", "-") in ("utf-8", "utf8")
+        if not ok:
+            raise Unsupported("comprehension over a list of symbolic length: %s" % ast.unparse(n))
+        return (True, it.map_decode_utf8())
+
     def ex_ListComp(self, n, frame):
+        first = self.ev(n.generators[0].iter, frame)
+        if isinstance(first, sym.SSeq):
+            r = self._abstract_map(n, frame, first)
+            if r is None:
+                raise Unsupported("comprehension over a list of symbolic length")
+            return r[1]
         out = []
-        self._comp(n, frame, lambda f: out.append(self.ev(n.elt, f)))
+        self._comp(n, frame, lambda f: out.append(self.ev(n.elt, f)), first)
         return out
 
     def ex_GeneratorExp(self, n, frame):
@@ -1461,7 +1541,20 @@ class Interp:
         raise Unsupported("starred expression")
 
     def ex_Call(self, n, frame):
-        fn = self.ev(n.func, frame)
+        mh = None
+        if self.method_name_contracts and isinstance(n.func, ast.Attribute):
+            obj = self.ev(n.func.value, frame)
+            if not isinstance(obj, (Sym, Opaque, Undefined)):
+                for k in type(obj).__mro__:
+                    mh = self.method_name_contracts.get((k, n.func.attr))
+                    if mh is not None:
+                        break
+            if mh is None:
+                fn = self.getattr_(obj, self.mangle(n.func.attr, frame))
+            else:
+                fn = None
+        else:
+            fn = self.ev(n.func, frame)
         args = []
         for a in n.args:
             if isinstance(a, ast.Starred):
@@ -1474,6 +1567,10 @@ class Interp:
                 kwargs.update(self.ev(k.value, frame))
             else:
                 kwargs[k.arg] = self.ev(k.value, frame)
+        if mh is not None:
+            q = "%s.%s" % (type(obj).__name__, n.func.attr)
+            self.contract_uses[q] = self.contract_uses.get(q, 0) + 1
+            return mh(self, [obj] + args, kwargs)
         if fn is builtins.globals:
             return frame.globals
         if fn is builtins.locals:
